@@ -21,28 +21,30 @@ theorem keys_setOptions (o : Opts) (kw) : keys (setOptions o kw).1 = keys o := b
 
 mutual
 /-- every program preserves the key set -/
-theorem keys_exec : ∀ (p : List Stmt) (o : Opts), keys (exec p o).1 = keys o
-  | [], o => by simp [exec]
-  | s :: rest, o => by
-    have h1 := keys_exec1 s o
+theorem keys_exec : ∀ (p : List Stmt) (o : Opts) (log : List Opts), keys (exec p o log).1 = keys o
+  | [], o, log => by simp [exec]
+  | s :: rest, o, log => by
+    have h1 := keys_exec1 s o log
     simp only [exec]
     split
-    · rename_i o' heq
-      rw [keys_exec rest o']
+    · rename_i o' log' heq
+      rw [keys_exec rest o' log']
       rw [heq] at h1; exact h1
     · exact h1
-theorem keys_exec1 : ∀ (s : Stmt) (o : Opts), keys (exec1 s o).1 = keys o
-  | .set kw, o => by simp [exec1, keys_setOptions]
-  | .raise e, o => by simp [exec1]
-  | .tryCatch body, o => by simp [exec1, keys_exec body o]
-  | .withBlock kw body, o => by
+theorem keys_exec1 : ∀ (s : Stmt) (o : Opts) (log : List Opts), keys (exec1 s o log).1 = keys o
+  | .set kw, o, log => by simp [exec1, keys_setOptions]
+  | .raise e, o, log => by simp [exec1]
+  | .mutateCopy _ _, o, log => by simp [exec1]
+  | .observe, o, log => by simp [exec1]
+  | .tryCatch body, o, log => by simp [exec1, keys_exec body o log]
+  | .withBlock kw body, o, log => by
     simp only [exec1]
     split
     · rfl
     · rename_i o1 heq
       have h0 : keys o1 = keys o := by
         have := keys_setOptions o kw; rw [heq] at this; exact this
-      simp only [keys_setOptions, keys_exec body o1, h0]
+      simp only [keys_setOptions, keys_exec body o1 log, h0]
 end
 
 theorem set1_of_not_mem (o : Opts) (k : Key) (v : Val) (h : k ∉ keys o) : set1 o k v = o := by
@@ -92,19 +94,19 @@ def Good (o : Opts) : Prop := (keys o).Nodup
 
 /-- C14: whatever the body does — nested blocks, `set_options`, exceptions, caught or not — the state
 after a `with global_options(...)` block is the state before it -/
-theorem with_restores (kw : List (Key × Val)) (body : List Stmt) (o : Opts) (hg : Good o) :
-    (exec1 (.withBlock kw body) o).1 = o := by
+theorem with_restores (kw : List (Key × Val)) (body : List Stmt) (o : Opts) (log : List Opts) (hg : Good o) :
+    (exec1 (.withBlock kw body) o log).1 = o := by
   simp only [exec1]
   split
   · rfl
   · rename_i o1 heq
     have h0 : keys o1 = keys o := by
       have := keys_setOptions o kw; rw [heq] at this; exact this
-    have hk : keys (exec body o1).1 = keys o := by rw [keys_exec, h0]
-    have hall : o.all (fun kv => has (exec body o1).1 kv.1) = true := by
+    have hk : keys (exec body o1 log).1 = keys o := by rw [keys_exec, h0]
+    have hall : o.all (fun kv => has (exec body o1 log).1 kv.1) = true := by
       rw [List.all_eq_true]
       intro kv hkv
-      have : kv.1 ∈ keys (exec body o1).1 := by rw [hk]; exact List.mem_map_of_mem hkv
+      have : kv.1 ∈ keys (exec body o1 log).1 := by rw [hk]; exact List.mem_map_of_mem hkv
       simp only [keys, List.mem_map] at this
       obtain ⟨x, hx, hx'⟩ := this
       exact List.any_eq_true.2 ⟨x, hx, by simp [hx']⟩
@@ -119,8 +121,8 @@ theorem set_unknown_atomic (o : Opts) (kw : List (Key × Val)) (h : ∃ kv ∈ k
     rw [List.all_eq_false]; exact ⟨kv, hkv, by simp [hf]⟩
   simp [setOptions, this]
 
-theorem with_unknown (o : Opts) (kw) (body) (h : ∃ kv ∈ kw, has o kv.1 = false) :
-    exec1 (.withBlock kw body) o = (o, .raised "KeyError") := by
+theorem with_unknown (o : Opts) (kw) (body) (log) (h : ∃ kv ∈ kw, has o kv.1 = false) :
+    exec1 (.withBlock kw body) o log = (o, .raised "KeyError", log) := by
   simp [exec1, set_unknown_atomic o kw h]
 
 /-- non-vacuity: nested blocks, an inner `set_options`, an exception that escapes two levels -/
@@ -128,7 +130,7 @@ example :
     let defaults : Opts := [("retain_names", "True"), ("sort_graded", "True"), ("display_graded", "True")]
     exec [.tryCatch [.withBlock [("retain_names", "False")]
             [.set [("sort_graded", "False")],
-             .withBlock [("display_graded", "False")] [.raise "RuntimeError"]]]] defaults
-      = (defaults, .normal) := by decide
+             .withBlock [("display_graded", "False")] [.raise "RuntimeError"]]]] defaults []
+      = (defaults, .normal, []) := by decide
 
 end Np.Opt
